@@ -16,4 +16,16 @@ TEXTS = {
          'note': KD + ' netset.DisjointIPBlocks is third-party: its equality with the boundary construction is a K-diff obligation.'},
  'C15': {'text': 'The PolicyEngine as a state machine in Lean (init/step over InsertObject, DeleteObject, ClearResources, CheckIfAllowed with the LRU verdict cache keyed by owner); K-diff compares outcome, cache content in LRU order and ANP order after every operation of generated histories; P puts every query to a fresh engine holding the same current objects.',
          'note': KD + ' hashicorp/lru is modelled (Add/Get move to front, eviction at capacity).'},
+ 'C04': {'text': 'Executable Lean model of diff.go (refinement to common disjoint IP blocks, diff map, merging per (peer, conn1, conn2), classification, new/lost flags) tied by K-diff to the real ConnDiffFromDirPaths on generated pairs; P recomputes the pointwise diff from the two real list results and checks diff(A,A) and the swap law.',
+         'note': KD},
+ 'C08': {'text': 'Order-independence: the model treats every Go map as a list whose order is universally quantified; P runs the real code on permuted / re-partitioned inputs and compares results byte for byte.',
+         'note': KD + ' Go map iteration order is sampled by P; formatter determinism (ties under unstable sorts) is partial.'},
+ 'C14': {'text': 'Additivity, locality and equivalent spellings are corollaries of the refinement of the list model to the order-free pointwise specification; P runs the real code on single-step edits and compares the two reports pointwise on the common refinement of the IP partitions.',
+         'note': KD},
+ 'C16': {'text': 'Model of the focus filter in the pair loop (isPeerFocusWorkload, existsFocusWorkload); K-diff on focused and unfocused runs; P checks that every focused result is exactly the filter of the unfocused result.',
+         'note': KD},
+ 'C17': {'text': 'Model of PodsFromWorkloadObject / createPodOwnersMap / WorkloadPeer naming; K-diff; P compares the real results for re-expressed workloads (kind, replicas, bare pods with a controller owner) after erasing the [Kind] suffix and counts peers per workload.',
+         'note': KD},
+ 'C19': {'text': 'Decision-tree theorem: every correct comparison sort, run with the conflict-detecting less() of sortAdminNetpolsByPriority, reports every tie and every out-of-range priority for every n and every position (Lean, unbounded); insertion-fold checks for duplicate names / BANP; K-diff and P on generated inputs with 0..40 padding policies and the conflict at random positions, for list and diff.',
+         'note': KD + ' sort.Slice being a correct deterministic comparison sort that inspects elements only through less() is the Go library contract (trusted).'},
 }
